@@ -299,6 +299,39 @@ def gen_sentence(g, rng, budget=12):
     return out
 
 
+def gen_long_sentence(g, rng, target):
+    """A sentence of about `target` tokens (None when the language has no long sentences or the derivation explodes): iterative
+    derivation with an explicit work list; while short of the target, alternatives containing nonterminals are preferred (recursion
+    of any kind: left, right, nesting), afterwards the alternatives of least height."""
+    h = min_heights(g)
+    if h[g.nts[0]] >= 10 ** 9:
+        return None
+    d = g.by_lhs()
+    ntset = set(g.nts)
+    out = []
+    work = [g.nts[0]]      # stack of symbols still to derive (top = next)
+    steps = 0
+    while work:
+        steps += 1
+        if steps > 40 * target + 1000 or len(out) > 3 * target + 50 or len(work) > 20 * target + 100:
+            return None
+        x = work.pop()
+        if x not in ntset:
+            out.append(x)
+            continue
+        alts = [i for i in d[x] if g.prods[i][2] != "error" and all((s_ not in ntset) or h[s_] < 10 ** 9 for s_ in g.prods[i][1])]
+        grow = len(out) + len(work) < target
+        if grow:
+            rec = [i for i in alts if any(s_ in ntset for s_ in g.prods[i][1])]
+            i = rng.choice(rec) if rec and rng.random() < 0.9 else rng.choice(alts)
+        else:
+            m = min(1 + max([h[s_] for s_ in g.prods[i][1] if s_ in ntset] + [0]) for i in alts)
+            i = rng.choice([i for i in alts if 1 + max([h[s_] for s_ in g.prods[i][1] if s_ in ntset] + [0]) == m])
+        for s_ in reversed(g.prods[i][1]):
+            work.append(s_)
+    return out
+
+
 def mutate(seq, terms, rng, extra=()):
     seq = list(seq)
     pool = list(terms) + list(extra)
